@@ -15,7 +15,7 @@ from typing import Any, Dict, List, Optional, Tuple
 
 from mtsa.absint import K, R, S, U, V, State
 from mtsa.cfg import CFG
-from mtsa.index import Repo, calls_in, dotted, norm, walk_no_nested
+from mtsa.index import FunctionInfo, Repo, calls_in, dotted, norm, walk_no_nested
 from mtsa.report import AnalysisError, Ctx
 
 from .common import cfg_of, guard_texts, has_guard, is_call_to, is_none, returns_of
@@ -229,45 +229,85 @@ def rule_attribution(ctx: Ctx, repo: Repo) -> None:
                   construct=norm(n.ast), node=n.ast)
     ctx.floor("R-C02.4", "non-None return of _has_code", n_nonnull, 1)
 
-    # get_func_in_mro: every return is None or _has_code(<cand>, code)
-    gm = repo.fn(M, "get_func_in_mro")
-    ctx.functions.add(gm.fq)
-    gmp = gm.positional_params()
-    ggm = cfg_of(gm)
-    for n, val in returns_of(gm):
-        if is_none(val):
-            ctx.ok("R-C02.4", gm.fq, "returns None")
-            continue
-        ok = all(
-            is_call_to(root, "_has_code") and len(root.args) == 2 and dotted(root.args[1]) == gmp[1]
-            or is_none(root)
-            for root, kind, _ in ggm.origins(val, n.id)
-        )
-        ctx.check(ok, "R-C02.4", gm.fq, "get_func_in_mro returns only _has_code(candidate, code) or None",
-                  construct=norm(n.ast), node=n.ast)
+    # get_func_in_mro / get_func (and any helper they delegate to): every returned value is None or was selected by
+    # _has_code(<candidate>, <the code object in question>)
+    memo: Dict[Tuple[str, str, str], Tuple[bool, str]] = {}
 
-    # get_func: every returned value originates from _has_code(.., code) / get_func_in_mro(.., code) / None,
-    # with code = frame.f_code
+    def denotes_code(fi: FunctionInfo, g: Any, e: ast.AST, at: int, desc: Tuple[str, str]) -> bool:
+        roots = g.origins(e, at)
+        if not roots:
+            return False
+        for r, kind, _ in roots:
+            if desc[0] == "param":
+                if not (kind == "param" and isinstance(r, ast.Name) and r.id == desc[1]):
+                    return False
+            else:
+                if not (isinstance(r, ast.Attribute) and r.attr == "f_code" and denotes_frame(fi, g, r.value, at, desc[1])):
+                    return False
+        return True
+
+    def denotes_frame(fi: FunctionInfo, g: Any, e: ast.AST, at: int, fname: str) -> bool:
+        roots = g.origins(e, at)
+        return bool(roots) and all(kind == "param" and isinstance(r, ast.Name) and r.id == fname for r, kind, _ in roots)
+
+    def selected(fi: FunctionInfo, desc: Tuple[str, str], depth: int = 0) -> Tuple[bool, str]:
+        key = (fi.fq, desc[0], desc[1])
+        if key in memo:
+            return memo[key]
+        memo[key] = (True, "")  # recursion: assume, then confirm
+        if fi is hc:
+            res = (desc == ("param", cparam), "" if desc == ("param", cparam) else "_has_code is given the code object in another position")
+            memo[key] = res
+            return res
+        if depth > 4:
+            memo[key] = (False, "delegation deeper than 4 calls")
+            return memo[key]
+        g = cfg_of(fi)
+        ctx.functions.add(fi.fq)
+        for n, val in returns_of(fi):
+            if val is None or is_none(val):
+                continue
+            for root, kind, at in g.origins(val, n.id):
+                if is_none(root):
+                    continue
+                if not isinstance(root, ast.Call):
+                    memo[key] = (False, f"`{norm(root)}` ({kind}) is returned without going through _has_code")
+                    return memo[key]
+                callee = repo.resolve_callee(fi, root)
+                if callee is None or not callee.fq.startswith("monkeytype."):
+                    memo[key] = (False, f"`{norm(root)[:60]}` is returned without going through _has_code")
+                    return memo[key]
+                from mtsa.index import bind_args
+                b = bind_args(callee, root, skip_self=callee.cls is not None and "staticmethod" not in callee.decorators())
+                sub: Optional[Tuple[str, str]] = None
+                for pn, a in b.items():
+                    if pn.startswith("*"):
+                        continue
+                    if denotes_code(fi, g, a, at, desc):
+                        sub = ("param", pn)
+                        break
+                if sub is None and desc[0] == "frame":
+                    for pn, a in b.items():
+                        if not pn.startswith("*") and denotes_frame(fi, g, a, at, desc[1]):
+                            sub = ("frame", pn)
+                            break
+                if sub is None:
+                    memo[key] = (False, f"`{norm(root)[:80]}` is not given the code object in question")
+                    return memo[key]
+                ok, why = selected(callee, sub, depth + 1)
+                if not ok:
+                    memo[key] = (False, why)
+                    return memo[key]
+        return memo[key]
+
+    gm = repo.fn(M, "get_func_in_mro")
+    ok, why = selected(gm, ("param", gm.positional_params()[1]))
+    ctx.check(ok, "R-C02.4", gm.fq, "get_func_in_mro returns only _has_code(candidate, code) or None", construct=why or "all value returns", reason=why)
     gf = repo.fn(M, "get_func")
-    ctx.functions.add(gf.fq)
-    ggf = cfg_of(gf)
-    fparam = gf.positional_params()[0]
-    n_ret = 0
-    for n, val in returns_of(gf):
-        if is_none(val):
-            ctx.ok("R-C02.4", gf.fq, "returns None")
-            continue
-        n_ret += 1
-        for root, kind, at in ggf.origins(val, n.id):
-            ok = False
-            if is_none(root):
-                ok = True
-            elif is_call_to(root, "_has_code", "get_func_in_mro") and len(root.args) == 2:
-                code_roots = ggf.origins(root.args[1], at)
-                ok = all(norm(r) == f"{fparam}.f_code" for r, _, _ in code_roots)
-            ctx.check(ok, "R-C02.4", gf.fq,
-                      "every value get_func returns comes from _has_code/get_func_in_mro applied to frame.f_code",
-                      construct=norm(root), node=root)
+    n_ret = sum(1 for _, v in returns_of(gf) if v is not None and not is_none(v))
+    ok, why = selected(gf, ("frame", gf.positional_params()[0]))
+    ctx.check(ok, "R-C02.4", gf.fq, "every value get_func returns comes from _has_code/get_func_in_mro applied to frame.f_code",
+              construct=why or "all value returns", reason=why)
     ctx.floor("R-C02.4", "value return of get_func", n_ret, 1)
 
     # _get_func: cache keyed by frame.f_code, filled by get_func(frame) of the same frame
